@@ -71,12 +71,16 @@ class C04(Check):
                     if self.tier == "quick" and is_rich and n % 4 != self.seed % 4:
                         continue
                     yield (wk, "hg19", planted, (), 1)
-        if self.tier == "thorough":
-            for name in ("cyp2c19", "nat2", "tpmt", "cyp3a5", "cyp2c9"):
-                wk = ("shipped", name)
-                gene = worlds.gene_of(wk, "hg19")
-                for planted in minor_plantings(gene, ("1", "1")):
-                    yield (wk, "hg19", planted, (), 1)
+        names = ("cyp2c19", "nat2", "tpmt", "cyp3a5", "cyp2c9")
+        if self.tier == "quick":
+            names = (names[self.seed % len(names)],)
+        for name in names:
+            wk = ("shipped", name)
+            gene = worlds.gene_of(wk, "hg19")
+            pl = list(minor_plantings(gene, ("1", "1")))
+            step = max(1, len(pl) // 120) if self.tier == "quick" else 1
+            for planted in pl[self.seed % step::step]:
+                yield (wk, "hg19", planted, (), 1)
 
     def _sites(self, gene, planted):
         majors = {M for M, _ in planted}
